@@ -341,7 +341,7 @@ def run_shard(ctx):
     for i, (desc, m, expect, cls) in enumerate(allc):
         if i % ctx.nshards != ctx.shard:
             continue
-        ctx.case(desc, True, {"model": mflat.print_model(m), "expect": expect, "class": cls} if ctx.cases < 1 else None)
+        ctx.case(desc, True, {"model": mflat.print_model(m), "expect": expect, "class": cls} if not ctx.samples else None)
         ctx.guarded(run_case, ctx, desc, m, expect, cls, rng, timeout=30)
     n = ctx.n(300, 20000)
     for desc, m, expect, cls in thorough_cases(rng, n):
